@@ -402,14 +402,17 @@ func judgeIndependence(name string, useProto bool) (out []outcome, nontrivial bo
 	if !reflect.DeepEqual(valueOf(a), snapshot) {
 		add("C19:shared-state:"+name, "decoding % x into the second instance changed the first from %#v to %#v", p2, snapshot, valueOf(a))
 	}
-	for i := 0; i < 64; i++ {
+	// a registry that recycles, pools or allocates instances in chunks shows only at the N-th call:
+	// 320 further calls, all kept reachable, every pointer compared with every earlier one, every
+	// instance zero when handed out and then decoded into (so that handing it out again shows)
+	for i := 0; i < 320; i++ {
 		if d := fresh("later"); d != nil {
-			checkZero(d, "after both decodes, a newly produced instance", "C19:shared-state")
+			checkZero(d, fmt.Sprintf("after both decodes, newly produced instance %d", i+4), "C19:shared-state")
+			enumlib.Try(func() { d.Unpack(ps[0]) })
 		}
 	}
-	// a recycling registry would have handed the first instance out again by now
 	if !reflect.DeepEqual(valueOf(a), snapshot) {
-		add("C19:shared-state:"+name, "after 64 further Produce(%q) calls the first instance changed from %#v to %#v", name, snapshot, valueOf(a))
+		add("C19:shared-state:"+name, "after 320 further Produce(%q) calls the first instance changed from %#v to %#v", name, snapshot, valueOf(a))
 	}
 	return
 }
